@@ -76,18 +76,19 @@ func init() {
 			d.Param(`SemVerRangeHash`)
 			d.Function(func(c px.Context, args []px.Value) px.Value {
 				hash := args[0].(*Hash)
-				start := hash.Get5(`min`, nil).(*SemVer).Version()
+				// min and max are Variant[Default,SemVer], as the positional parameters
+				var start semver.Version = semver.Min
+				if sv, ok := hash.Get5(`min`, nil).(*SemVer); ok {
+					start = sv.Version()
+				}
 
-				var end semver.Version
-				ev := hash.Get5(`max`, nil)
-				if ev == nil {
-					end = semver.Max
-				} else {
-					end = ev.(*SemVer).Version()
+				var end semver.Version = semver.Max
+				if sv, ok := hash.Get5(`max`, nil).(*SemVer); ok {
+					end = sv.Version()
 				}
 
 				excludeEnd := false
-				ev = hash.Get5(`excludeMax`, nil)
+				ev := hash.Get5(`excludeMax`, nil)
 				if ev != nil {
 					excludeEnd = ev.(booleanValue).Bool()
 				}
